@@ -109,7 +109,7 @@ def generate(rng, tier, index):
         options["detect_minimal_iri"] = True
     n_ch = rng.randint(10, 16) if tier == "thorough" else rng.randint(8, 12)
     channels = [gen_channel(rng, bnodes) for _ in range(n_ch)]
-    return {"graph": gen.L(triples), "bnodes": bnodes, "target": target, "options": options, "ns": gen.gen_namespaces(rng),
+    return {"short_read_max": rng.choice([0, 0, 7, 64, 4096]), "graph": gen.L(triples), "bnodes": bnodes, "target": target, "options": options, "ns": gen.gen_namespaces(rng),
             "channels": channels}
 
 
@@ -269,6 +269,7 @@ def execute(scen, scratch):
     triples = [gen.T(t) for t in scen["graph"]]
     has_lang = any(t[2][0] == "l" and t[2][3] for t in triples)
     nontrivial = []
+    sim.fs.short_read_max = scen.get("short_read_max", 0)
     with sim:
         ref = run_once(_kw(scen, raw_graph=gen.to_nt(triples)))
         runs += 1
